@@ -84,8 +84,73 @@ func (r *vfC20Run) guard(op string, f func()) (ok bool) {
 	return true
 }
 
+// prelude builds a dependency tree of all streams with differing weights on every level (the sort path of
+// walkReadyInOrder, nested), queues frames on one or two streams only and pops until the scheduler says there is nothing.
+func (r *vfC20Run) prelude(rng *rand.Rand, ids []uint32) bool {
+	for _, id := range ids {
+		id := id
+		st := &stream{id: id, sc: r.sc}
+		st.flow.conn = &r.sc.flow
+		st.flow.n = 3
+		if !r.guard("open", func() { r.ws.OpenStream(id, OpenStreamOptions{}) }) {
+			return false
+		}
+		r.streams[id] = st
+		r.emit(vfC20Ev{"op": "open", "s": id})
+	}
+	ws := []uint8{15, 200, 0, 77, 9}
+	rng.Shuffle(len(ws), func(i, j int) { ws[i], ws[j] = ws[j], ws[i] })
+	for i, id := range ids {
+		id := id
+		dep := uint32(0)
+		if i > 0 && rng.Intn(3) != 0 {
+			dep = ids[rng.Intn(i)]
+		}
+		w := ws[i%len(ws)]
+		if !r.guard("adjust", func() { r.ws.AdjustStream(id, PriorityParam{StreamDep: dep, Weight: w}) }) {
+			return false
+		}
+		r.emit(vfC20Ev{"op": "adjust", "s": id, "dep": dep, "excl": false, "w": w})
+	}
+	for k := 1 + rng.Intn(2); k > 0; k-- {
+		s := ids[rng.Intn(len(ids))]
+		r.nframes++
+		id := r.nframes
+		if !r.guard("push", func() { r.ws.Push(FrameWriteRequest{write: vfHdrFrame{id}, stream: r.streams[s]}) }) {
+			return false
+		}
+		r.origLen[id] = 0
+		r.emit(vfC20Ev{"op": "push", "k": "H", "s": s, "len": 0})
+	}
+	for k := 0; k < 4; k++ {
+		var wr FrameWriteRequest
+		var ok bool
+		if !r.guard("pop", func() { wr, ok = r.ws.Pop() }) {
+			return false
+		}
+		r.pops++
+		ev := vfC20Ev{"op": "pop", "ok": ok, "id": 0, "s": 0, "k": "-", "len": 0, "whole": false}
+		if ok {
+			r.popsOK++
+			if w, isH := wr.write.(vfHdrFrame); isH {
+				ev["id"], ev["k"], ev["s"], ev["whole"] = w.id, "H", wr.StreamID(), true
+			}
+		}
+		r.emit(ev)
+		if !ok {
+			break
+		}
+	}
+	return true
+}
+
 func (r *vfC20Run) history(rng *rand.Rand, ids []uint32, steps int) {
 	r.reset()
+	if r.kind == "prio" && rng.Intn(2) == 0 {
+		if !r.prelude(rng, ids) {
+			return
+		}
+	}
 	for i := 0; i < steps; i++ {
 		var open, unopened []uint32
 		for _, id := range ids {
